@@ -31,7 +31,7 @@ mod recover;
 #[cfg(blue_verif)]
 mod verif_hooks;
 #[cfg(blue_verif)]
-pub use verif_hooks::VerifCompaction;
+pub use verif_hooks::{VerifCompaction, verif_set_point_hook};
 
 use recover::recover;
 
@@ -1507,6 +1507,8 @@ impl LsmTree {
             };
             outputs.push(metadata);
         }
+        #[cfg(blue_verif)]
+        verif_hooks::verif_point("compaction_finish:linked");
         if input_setsum != output_setsum + discard_setsum {
             return Err(
                 corruption("setsum does not balance input = output + discard")
